@@ -22,6 +22,7 @@ theorem new_eq (fp sp gp : Nat) :
     (new fp sp gp : Res (PercentagePriceOscillator F)) =
       if fp = 0 ∨ sp = 0 ∨ gp = 0 then .err .InvalidParameter else .ok (fresh fp sp gp) := by
   unfold new
+  try simp only [gen_helper]
   simp only [ExponentialMovingAverage.new_eq]
   by_cases f0 : fp = 0 <;> by_cases s0 : sp = 0 <;> by_cases g0 : gp = 0 <;>
     simp [f0, s0, g0, bind, Res.bind, fresh]
